@@ -36,9 +36,16 @@ Definition model_req (q : quirks) (s : shape) (r : request) : list (nat * acc) *
 Definition model_meta (s : shape) := (meta_methods isp s, meta_oneway isp s, meta_attrs isp s).
 Definition model_refused (s : shape) : list nat := map m_id (filter (own_mark_refused isp) (s_members s)).
 
+(* member and helper effects must agree exactly and in order; attribute-hook effects of the implementation must be
+   among those the model predicts (the model is an upper bound for them: an implementation that consults the hooks
+   less often — e.g. resolves statically first — is not a disagreement) *)
+Definition not_hook (e : nat * acc) : bool := negb (acc_eqb (snd e) AHook).
+Definition hooks_within (model impl : list (nat * acc)) : bool :=
+  forallb (fun e => not_hook e || existsb (fun e' => pair_eqb Nat.eqb acc_eqb e e') model) impl.
 Definition check_req (q : quirks) (s : shape) (ro : request * robs) : bool :=
   let '(l, rep) := model_req q s (fst ro) in
-  log_eqb l (o_log (snd ro)) && reply_eqb rep (o_reply (snd ro)).
+  log_eqb (filter not_hook l) (filter not_hook (o_log (snd ro))) && hooks_within l (o_log (snd ro)) &&
+  reply_eqb rep (o_reply (snd ro)).
 
 Definition check_scase (c : scase) : bool :=
   let s := c_shape c in
